@@ -637,7 +637,7 @@ def do_pack(interp, f, values, state, node):
         ch, size, signed, kind = fm.values[i]
         if kind == 'int':
             rng = fm.value_range(i)
-            t = T.typeof(v)
+            t = state.kn.type_of(v)
             if t is not None and not (t <= {'int', 'bool'}):
                 interp.raise_pending(state, E('struct.error'), node,
                                      'pack %r: required argument is not an '
@@ -1300,7 +1300,7 @@ def binop(interp, op, a, b, state, node):
             interp.raise_pending(state, E('builtins.' + type(err).__name__),
                                  node, 'constant operation fails', cond=True)
             raise _i()._NoReturn()
-    ta, tb = T.typeof(a), T.typeof(b)
+    ta, tb = state.kn.type_of(a), state.kn.type_of(b)
     known_int = ta is not None and tb is not None and \
         ta <= {'int', 'bool'} and tb <= {'int', 'bool'}
     if name in ('shl', 'shr'):
@@ -1438,7 +1438,7 @@ def compare(interp, op, a, b, state, node):
             return Sym(name, _t(a), _t(b))
         return Sym(name, _t(a), _t(b))
     if name in ('lt', 'le', 'gt', 'ge'):
-        ta, tb = T.typeof(a), T.typeof(b)
+        ta, tb = state.kn.type_of(a), state.kn.type_of(b)
         num = {'int', 'bool', 'float'}
         if not (ta is not None and tb is not None and
                 ((ta | tb) <= num or ta == tb)):
